@@ -260,3 +260,9 @@ Definition cp_read_p (p : cpack) (i : N) : prog (option (N * N * content_loc * o
   end.
 Close Scope prog_scope.
 Close Scope N_scope.
+
+Lemma cp_locate_past f p i : (cp_content_count (cpk_cp p) <= i)%N -> run f (cp_locate_p p i) = Ok None.
+Proof.
+  intros H. unfold cp_locate_p.
+  replace (cp_content_count (cpk_cp p) <=? i)%N with true by (symmetry; now apply N.leb_le). reflexivity.
+Qed.
